@@ -28,7 +28,11 @@ Definition mp_item (c : bytes) (sec : N) (off : N) : outcome (mitem * N) :=
     Ok (ME (fst r), len c - len (snd r))
   else
     do r <- new_record c off;
-    let '(w, ty, cl, ttl, d, e) := r in Ok (MR sec w ty cl ttl (e - d), e).
+    let '(w, ty, cl, ttl, d, e) := r in
+    (* the typed RecordData parse: opaque for unknown types; an OPT record that is
+       not read as an EdnsRecord must still hold well-framed options *)
+    if (ty =? 41) && negb (nopt_ok (firstn (N.to_nat (e - d)) (skipn (N.to_nat d) c))) then Err E_PARSE
+    else Ok (MR sec w ty cl ttl (e - d), e).
 
 (* `count` items of one section; stops at the first error (the iterator is fused) *)
 Fixpoint mp_section (count : nat) (c : bytes) (sec : N) (off : N) (acc : list mitem)
